@@ -128,7 +128,11 @@ BaseTypes == <<
   [n |-> "disjunction", t |-> TDisj(<<TString, TRef("p", "Other")>>, "", <<>>), d |-> VNil, c |-> <<>>],
   [n |-> "disjunction-of-refs", t |-> TDisj(<<TRef("p", "Other"), TRef("q", "QS")>>, "kind", <<MapTo("o", "Other"), MapTo("q", "QS")>>), d |-> VNil, c |-> <<>>],
   [n |-> "intersection", t |-> TInter(<<TRef("p", "Other"), TStruct(<<Field("y", TString, FALSE)>>)>>), d |-> VNil, c |-> <<>>],
-  [n |-> "slot", t |-> TSlot("dataquery"), d |-> VNil, c |-> <<>>]
+  [n |-> "slot", t |-> TSlot("dataquery"), d |-> VNil, c |-> <<>>],
+  [n |-> "int-repeated-operators", t |-> TScalar("int64"), d |-> VInt("6"), c |-> <<Con(">=", VInt("0")), Con(">=", VInt("5")), Con("<", VInt("10")), Con(">=", VInt("1"))>>],
+  [n |-> "array-empty-default", t |-> TArray(TRef("p", "Other")), d |-> VList("[]"), c |-> <<>>],
+  [n |-> "map-empty-default", t |-> TMap(TString, TString), d |-> VMap("{}"), c |-> <<>>],
+  [n |-> "ref-array-empty-default", t |-> TRef("p", "Arr"), d |-> VList("[]"), c |-> <<>>]
 >>
 FieldRecipes == {fr \in [b : DOMAIN BaseTypes, req : BOOLEAN, null : BOOLEAN, def : BOOLEAN, cons : BOOLEAN, meta : 1..4] :
                    /\ (fr.def => BaseTypes[fr.b].d # VNil)
